@@ -92,9 +92,10 @@ set_option maxRecDepth 100000 in
 example : (match S2G.stateToGraph bellMinus with
     | .ok (adj, gates) => adj.bits == "0110" && gates == [Gate.H 1, Gate.Z 1]
     | .error _ => false) = true := by decide +kernel
-/-- and the known finding D40 is part of the model: the one-qubit `|0⟩` is rejected (`_position_finder` proposes no Hadamard) -/
-example : (match S2G.stateToGraph (STab.zero 1) with | .ok _ => false | .error e => e == Err.assertion) = true := by
-  decide +kernel
+/-- the one-qubit `|0⟩ = ⟨+Z⟩` (rejected before the repair of D40) converts to the one-vertex graph with the single gate `H 0` -/
+example : (match S2G.stateToGraph (STab.zero 1) with
+    | .ok (adj, gates) => adj.bits == "0" && gates == [Gate.H 0]
+    | .error _ => false) = true := by decide +kernel
 
 /-! ### graph states: the round trip, the tableau is a state, both constructions give the same state -/
 
